@@ -17,6 +17,10 @@ pub struct C09;
 
 impl Prop for C09 {
     type Case = FwCase;
+    fn admissible(case: &FwCase) -> bool {
+        crate::props::fw_admissible(case)
+    }
+
     const ID: &'static str = "C09";
     const RULE: &'static str = "case = 1..=5 machines (<=3 states) with SIGNAL targets on external events, LimitReached, CounterZero and Signal, END targets, x multi-call histories with batches in which the same or different machines signal once or several times x scripted/seeded stream. Oracle: S = machines whose sampled target was SIGNAL before the delivery round, D(m) = Signal deliveries to live machine m, from the step log. Non-trivial: a call with S non-empty. Distinct = hash of the case.";
 
